@@ -52,6 +52,8 @@ def prepare(unit):
         cmd = [os.path.join(td, "ir2c"), ll, gen_c] + roots
         for s in unit.get("stubs", []):
             cmd += ["--stub", s]
+        for s in unit.get("throws", []):
+            cmd += ["--throw", s]
         r = subprocess.run(cmd, capture_output=True, text=True)
         if r.returncode != 0:
             raise RuntimeError("ir2c failed for %s:\n%s" % (name, r.stderr[-3000:]))
@@ -67,10 +69,10 @@ def prepare(unit):
         drv_o = os.path.join(wd, "drv_real.o")
         sh(["gcc", "-O1", "-w", "-DNATIVE", "-I" + wd, "-I" + HDIR, "-c", drv, "-o", drv_o])
         extra = []
-        for s in unit.get("lib_sources", []):
-            o = os.path.join(wd, os.path.basename(s) + ".real.o")
-            sh(["g++", "-std=c++17", "-O1", "-DNDEBUG", "-DNANO_HAS_FROM_CHARS_FLOAT", "-w"] + inc + ["-c", os.path.join(build.REPO, s), "-o", o])
-            extra.append(o)
+        if unit.get("lib_sources"):
+            # the real functions live in libnano: link against the plain (un-instrumented) objects built from /repo's current tree
+            _, plain, _ = build.build_lib()
+            extra = plain
         sh(["g++", drv_o, shim_o] + extra + ["-o", exe_real, "-lm", "-lpthread"])
     funcs = re.findall(r"translated|extern/stub: (\S+)", ir2c_log)
     return {"wd": wd, "gen_c": gen_c, "drv": drv, "exe_gen": exe_gen, "exe_real": exe_real, "ir2c_log": ir2c_log.strip().splitlines()}
@@ -145,8 +147,11 @@ def trace_values(prep, func, unwind, prop, timeout):
                 data = v.get("data")
                 if data is None or lhs in vals:
                     continue
+                lhs = re.sub(r"\[(\d+)[a-zA-Z]*\]", r"[\1]", lhs)
+                if lhs in vals:
+                    continue
                 if v.get("name") in ("integer", "float", "boolean"):
-                    vals[lhs] = data.replace("f", "") if v.get("name") == "float" else data
+                    vals[lhs] = data.rstrip("f") if v.get("name") == "float" else re.sub(r"[uUlL]+$", "", data)
     return vals
 
 
